@@ -63,10 +63,14 @@ class DevConn:
         if self.closed:
             return
         self.buf += data
+        garbage: list = []
         if self.dev.version == 3:
-            pkts = rc.v3_split_stream(self.buf)
+            pkts = rc.v3_split_stream(self.buf, garbage)
         else:
-            pkts = rc.v2_split_stream(self.buf)
+            pkts = rc.v2_split_stream(self.buf, garbage)
+        for g in garbage:
+            # bytes that are not part of any packet of this device's protocol version (e.g. a V2 packet sent to a V3 device)
+            self.dev.log.append(WireEvent(self.dev.loop.time(), self.id, "undecodable", ok=False, note="garbage " + g[:8].hex(), raw=g))
         for p in pkts:
             self.dev._on_packet(self, p)
 
